@@ -85,6 +85,27 @@ class PtrCase(Case):
                 ctx.prove("char*-does-not-move-the-stream", ctx.eq(s2.pos, p))
             except PyRaise as e:
                 ctx.prove("char*-refuses-only-unterminated", e.cls is EOFError)
+            # modular: a char pointer dereference IS the target type's null-terminated reader applied at the address
+            # (Char._read_0 replaced by a recording summary: whatever it returns must be returned, unmodified, for every length)
+            from dissect.cstruct.types.char import Char
+
+            calls = []
+            token = object()
+
+            def rec(interp, cls, stream, context=None):
+                calls.append((cls, stream, stream.pos, context))
+                stream.pos = _norm(zint(stream.pos) + 5)  # the callee moves the stream
+                return token
+
+            it2 = Interp(ctx, summaries={Char._read_0.__func__: rec})
+            s3 = SymStream(ctx, D, p)
+            pc2 = SPtr(PC, addr, s3, {"k": 2})
+            r3 = it2.call(Pointer.dereference, [pc2])
+            ctx.prove("char*-delegates-to-the-null-terminated-reader-at-the-address",
+                      r3 is token and len(calls) == 1 and calls[0][0] is cs.char and calls[0][1] is s3 and ctx.eq(calls[0][2], addr) is True and calls[0][3] == {"k": 2})
+            ctx.prove("char*-restores-the-position-after-the-callee-moved-it", ctx.eq(s3.pos, p))
+            r4 = it2.call(Pointer.dereference, [pc2])
+            ctx.prove("char*-cached-on-repeated-access", r4 is token and len(calls) == 1)
         elif self.which == "null":
             s = SymStream(ctx, D, p)
             for nm, ptr in (("null", SPtr(PT, 0, s, None)), ("no-stream", SPtr(PT, z3.Int("addr"), None, None))):
